@@ -681,6 +681,16 @@ def selftest():
                 idx.append(i)
             mut.append(e)
         expect("SWEEP: backward ring length of one output record altered", mut, idx, "R1")
+        mut, idx = [], []
+        for i, e in enumerate(evs, 1):
+            e = json.loads(json.dumps(e))
+            oe = [a for b in e["beams"] for a in b["ael"] if a["open"]]
+            if oe and i not in base_rej and len(idx) < 8:
+                for a in oe:
+                    a["hot"] = not a["hot"]
+                idx.append(i)
+            mut.append(e)
+        expect("SWEEP: contribution flag of the open edges flipped", mut, idx, "S4", frac=0.8)
         # 8. open paths: one piece of the open solution moved off its subject line
         evs = gen("C09", 80, "c09")
         base_rej, _ = rejected(evs, "c09-base")
